@@ -507,6 +507,44 @@ func ruleSemantic(c *Ctx) {
 				}
 			}
 			rawEdge(enc.Common().Args[0], 0)
+			// ... and an answer given before the text is tokenised (the empty result for an empty or unknown document)
+			// does not depend on the requested range: "the range lies below the text" decided from a line count is a
+			// second, hand-made filter (C17-m31: lines counted as line feeds, so a range that starts on the last line
+			// of a text without a final line feed gets nothing)
+			if tokCall != nil {
+				early := ""
+				for _, rb := range f.Blocks {
+					ret, ok := lastInstr(rb).(*ssa.Return)
+					// "before tokenising": the return is not behind the call, in this handler, that the encoded list comes from
+					anchor := enc.Block()
+					for v := range encSlice {
+						if cl, isCall := v.(*ssa.Call); isCall && cl.Parent() == f && cl.Block() != nil && cl.Block().Dominates(anchor) {
+							if sliceHasCall(backSlice(cl), func(cal *ssa.Function, _ *ssa.Call) bool { return isTokenizer(cal) }) || isTokenizer(cl.Common().StaticCallee()) {
+								anchor = cl.Block()
+							}
+						}
+					}
+					if !ok || anchor == rb || anchor.Dominates(rb) {
+						continue
+					}
+					for _, cc := range controlDeps(rb) {
+						for w := range backSlice(cc.Cond) {
+							var bt types.Type
+							switch x := w.(type) {
+							case *ssa.Field:
+								bt = x.X.Type()
+							case *ssa.FieldAddr:
+								bt = x.X.Type().Underlying().(*types.Pointer).Elem()
+							}
+							if bt != nil && (typeHasSuffix(bt, "protocol.Range") || typeHasSuffix(bt, "protocol.Position")) {
+								early = c.P.pos(ret.Pos())
+							}
+						}
+					}
+				}
+				c.check(early == "", "T12", fname, "range: no answer before tokenising depends on the requested range", f.Pos(), "early returns depend on the document only",
+					"the range handler answers without tokenising on a path that is decided by the requested range (return at "+early+"): a second, hand-made line filter in front of the real one - where the two disagree (line counts taken from line feeds, a last line without one) the response is not the full result restricted to the requested lines")
+			}
 			c.check(!raw, "T12", fname, "range: the filter is applied on every path", enc.Pos(), "no path hands the tokenizer's unfiltered output to the encoder",
 				"on some path the range handler encodes the tokenizer's output as it is - the line filter is skipped there (a requested range that is mistaken for 'no range', e.g. the zero Range 0:0-0:0): the response holds the tokens of every line instead of the full result restricted to the requested lines")
 			c.check(filt, "T12", fname, "range = full result restricted by the line filter", enc.Pos(), "the tokenizer's output passes the range filter before encoding", "range tokens are not obtained by filtering the full token list")
